@@ -116,7 +116,7 @@ def msg_targets(K):
     m = {}
     for n in targets:
         m.setdefault(er.expected_message(K, None, n), set()).add(n)
-    for n in getattr(K, "rof", ()):
+    for n in list(getattr(K, "rof", ())) + list(getattr(K, "rofs", ())):
         # must_if control families (ctl4/ctl5): the control's error table has the message "mustif" for these rules
         m.setdefault("mustif", set()).add(n)
     K._c05_targets = m
@@ -169,7 +169,36 @@ def projection(rec, K, model):
     return s
 
 
+TC_EXPECT = [("try_catch_false", "parse"), ("try_catch_false", "any"), ("try_catch_false", "std"), ("try_catch_false", "type:1"),
+             ("try_catch_nested", "parse"), ("try_catch_nested", "any"), ("try_catch_nested", "std"), ("try_catch_nested", "type:1")]
+
+
+def _filter_tie(K, rec, counters):
+    """surface-side expectation for the try_catch family: the rule TEXT of the generated grammar names the exception type
+    (try_catch_std_return_false< ... > etc.); the class the compiler actually instantiated (rule_t, as dumped) must be the
+    conversion for exactly that type - also for the forms with several rules, which forward to the one-rule form."""
+    g = K.grams[rec["gid"]]
+    done = K.__dict__.setdefault("_c05_tie_done", {})
+    if rec["gid"] in done:
+        return done[rec["gid"]]
+    msgs = []
+    tcs = [t for t in g.tags if t.startswith("tc") and t[2:].isdigit()]
+    if tcs and "c05:nest" not in g.tags:
+        want = TC_EXPECT[int(tcs[0][2:])]
+        for x in reach(K, rec["root"]):
+            h = K.table[x]["head"]
+            if h[0].startswith("try_catch"):
+                counters["try_catch_filter_ties"] += 1
+                if (h[0], h[1]) != want:
+                    msgs.append("the grammar text asks for %s converting '%s' but the instantiated rule (node %d) is %s converting '%s'" % (want[0], want[1], x, h[0], h[1]))
+    done[rec["gid"]] = msgs
+    return msgs
+
+
 def oracle(K, rec, counters):
+    tie = _filter_tie(K, rec, counters)
+    if tie:
+        return tie[:1]
     out = _oracle(K, rec, counters)
     if out and _lazy_rematch(K, rec):
         counters["known_lazy_rematch_cases"] += 1
@@ -491,6 +520,12 @@ def _c05_family(tier, seed):
             for cn, wrap in picks:
                 out.append(_mk(wrap(_tc(ti, b)), ["c05", "c05:convert", "catch", bn, "tc%d" % ti, "ctx:" + cn]))
             k += 1
+        # the forms with several rules (they forward to the one-rule form with seq< Rules... >): a named rule whose action
+        # may throw std / foreign exceptions, then a raising body
+        for bi in ((ti, ti + 5) if tier != "thorough" else range(0, len(bodies), 2)):
+            bn, b = bodies[bi % len(bodies)]
+            out.append(_mk(_tc(ti, "N0, %s" % b), ["c05", "c05:convert", "c05:pack", "catch", bn, "tc%d" % ti]))
+            out.append(_mk("sor< %s, star< any > >" % _tc(ti, "opt< N1 >, N0, %s" % b), ["c05", "c05:convert", "c05:pack", "catch", bn, "tc%d" % ti]))
     # (c) try_catch inside try_catch (nested chains, re-conversion), try_catch with several rules
     for ti in range(len(TC)):
         for tj in ([4, 5, 0, 1] if tier != "thorough" else range(len(TC))):
@@ -519,7 +554,7 @@ def _c05_family(tier, seed):
         out.insert(0, _mk("seq< opt< one< 'b' > >, rematch< one< 'a' >, must< one< 'b' > > > >", ["c05", "c05:pos", "c05:known", "raise"]))
     if tier != "thorough":
         # keep the quick tier small but let every seed see a different slice of (a)-(c); (d) always present
-        keep = [g for g in out if "c05:pos" in g.tags] + [g for g in out if "c05:pos" not in g.tags][:84]
+        keep = [g for g in out if "c05:pos" in g.tags or "c05:pack" in g.tags] + [g for g in out if "c05:pos" not in g.tags and "c05:pack" not in g.tags][:84]
         out = keep
     return out
 
@@ -546,6 +581,13 @@ def _mustif_family(tier, seed):
             out.append(g)
         for ti in ([bi % len(TC), (bi + 4) % len(TC)] if tier != "thorough" else range(len(TC))):
             g = _mk(_tc(ti, b), ["c05", "c05:mustif", "catch", "tc%d" % ti])
+            g.mustif = set(marks)
+            out.append(g)
+    # the documented opt-out: message in the error table, raise_on_failure = false -> local failure stays local, must< R > raises "mustif"
+    for b, marks in [("sor< N1, one< 'c' > >", ["~N1"]), ("seq< opt< N0 >, sor< N1, must< N1 > > >", ["~N1"]), ("star< sor< N1, one< 'c' > > >", ["~N1", "N0"]),
+                     ("sor< seq< N1, one< 'c' > >, N0, must< N1 > >", ["~N0", "~N1"]), ("if_must< one< 'a' >, N1 >", ["~N1"])]:
+        for cn, wrap in [ctxs[0], ctxs[1], ctxs[4]]:
+            g = _mk(wrap(b), ["c05", "c05:mustif", "c05:soft", "raise", "ctx:" + cn])
             g.mustif = set(marks)
             out.append(g)
     # the root itself and a try_catch rule as must_if rules: the raise comes out of the rule's OWN failure(), outside its try block
